@@ -62,6 +62,8 @@ inductive Res where
   | ne0                        -- x != 0
   | lit (n : Int)              -- an integer constant
   | ifTrue (a b : Int)         -- if x { return a }; return b
+  | litF (n : Int)             -- the constant n returned as a float
+  | ifTrueF (a b : Int)        -- the same, returning floats
   | call (fn : String)         -- return fn(x) (or fn(float64(x)) for a float32: exact widening)
   | lib (fn : String) (args : List Int)   -- a library call on the trimmed text, with its literal arguments
                                           --   ("…!NaN": a NaN result is turned into a format error)
@@ -226,6 +228,10 @@ def Res.eval (env : Env) (s : Src) : Res → Option (R Val)
   | .lit n => some (.ok (.int n))
   | .ifTrue a b => match s with
     | .bool t => some (.ok (.int (if t then a else b)))
+    | _ => none
+  | .litF n => some (.ok (.flt (.fin n 0)))
+  | .ifTrueF a b => match s with
+    | .bool t => some (.ok (.flt (.fin (if t then a else b) 0)))
     | _ => none
   | .call fn => (env.fns fn).map (fun f => f s)
   | .raw go => (env.raws go).map (fun f => f s)
